@@ -34,10 +34,13 @@ TAttempt == Is("Attempt") /\ Keep
                /\ Step
 TAttemptErr == Is("AttemptErr") /\ Keep /\ O!OFail(E.n)
                /\ Step
-\* the agent regards the attempt as successful unless the status is 5xx; UploadObs acknowledges
-\* only an attempt on which the proxy received exactly the complete serialised response
+\* an attempt is acknowledged by a 2xx reply; UploadObs acknowledges only an attempt on which the proxy received
+\* exactly the complete serialised response.  Any other reply (5xx; also a redirect or a 4xx from something in
+\* front of the proxy) is an attempt that was not acknowledged - whether the agent then tries again is its choice
+\* within "at most three, only while replayable" (the code stops after a 3xx / 4xx and reports success, which the
+\* statement does not forbid)
 TAttemptStatus == Is("AttemptStatus") /\ Keep
-               /\ (IF E.status >= 500 /\ E.status < 600 THEN O!OFail(E.n) ELSE O!OAck(E.n))
+               /\ (IF E.status >= 200 /\ E.status < 300 THEN O!OAck(E.n) ELSE O!OFail(E.n))
                /\ Step
 TBrsRead == Is("BrsRead") /\ Keep
             /\ (IF E.wh >= BufSize /\ oseek THEN O!OOverflow ELSE UNCHANGED <<ocur, oreply, ook, opost, oseek>>)
